@@ -80,10 +80,19 @@ theorem unPre_pass_minus : passK unPre (some tMINUS.k) (some .RPAREN) none = tru
 /-- does level `L` map token kind `k` to `op`? -/
 def handlesK (L : Level) (k : TK) (op : BinOp) : Bool :=
   match L with
-  | .binary _ _ map => map.lookup k == some op
+  | .binary _ _ _ map => map.lookup k == some op
   | .inLv => k == .IN && op == .IN
   | .concatLv => k == concatTok && op == .CONCAT
   | _ => false
+
+/-- is the level a right-associative `parse_binary` level? -/
+def isRassoc : Level → Bool
+  | .binary _ _ ra _ => ra
+  | _ => false
+
+/-- the levels that parse the right operand of an operator handled by level `L` (`below` = the levels under `L`):
+    the next level, or `L` itself when it is right-associative -/
+def rightLevels (L : Level) (below : List Level) : List Level := if isRassoc L then L :: below else below
 
 /-- split a ladder at the first level that handles `k` as `op` -/
 def splitAtOp (k : TK) (op : BinOp) : List Level → Option (List Level × Level × List Level)
@@ -116,7 +125,8 @@ def binOK (op : BinOp) : Bool :=
   | some (pre, L, bp) =>
     startKs.all (fun s => passK pre (some s) (some .RPAREN) none) &&     -- the node passes up to the top, followed by `)`
     startKs.all (fun s => opOK bp (some (binTok op).k) (some s)) &&      -- left operand, followed by the operator and the right operand
-    opOK bp (some .RPAREN) none &&                                       -- right operand, followed by `)`
+    opOK (rightLevels L bp) (some .RPAREN) none &&                       -- right operand (read by the next level, or by the
+                                                                         -- level itself if right-associative), followed by `)`
     noContK L (some .RPAREN) none                                        -- the loop stops at `)`
 
 theorem binOK_all (op : BinOp) : binOK op = true := by cases op <;> decide +kernel
